@@ -29,9 +29,9 @@ def apply_edit(src: str, old: str, new: str, nth: int | None):
     return src[:pos] + new + src[pos + len(old):], None
 
 
-def build_overlay(root, edits):
-    """edits: list of (relpath, old, new, nth)."""
-    overlay = {}
+def build_overlay(root, edits, start=None):
+    """edits: list of (relpath, old, new, nth); `start` = an overlay the edits are made on top of."""
+    overlay = dict(start or {})
     for rel, old, new, nth in edits:
         base = overlay.get(rel)
         if base is None:
@@ -70,6 +70,15 @@ def run_variant(args):
                     compile(src, rel, "exec")
             except SyntaxError as e:
                 overlay, err = None, f"does not compile: {e}"
+    elif "base" in v:
+        # a seeded edit on top of a stored behaviour-preserving refactoring (e.g. a slip inside an extracted collaborator class)
+        from .seeds import BENIGN_DIR, apply_unified
+
+        start = apply_unified((BENIGN_DIR / f"{v['base']}.diff").read_text(), lambda rel: (root / rel).read_text())
+        if start is None:
+            overlay, err = None, f"base refactoring {v['base']} does not apply to this tree"
+        else:
+            overlay, err = build_overlay(root, _edits_of(v), start)
     else:
         overlay, err = build_overlay(root, _edits_of(v))
     if overlay is None:
@@ -97,13 +106,8 @@ KNOWN_UNDECIDED = {
     "C02": {"r2set2_3": "history rows precomputed as a Python list and walked with enumerate(zip(rows, rows[1:])): no loop summary"},
     "C03": {"r2set2_3": "same", "r4set4_2": "padding mask moved into a new BatchProcessor.padding_mask() method: the BatchProcessor is summarised, not interpreted"},
     "C06": {"r4set4_2": "same"},
-    "C08": {"r4set4_2": "same", "r4set1_2": "policy-evaluation loop moved into a collaborator class (_IterativePolicyEvaluation.run)"},
-    "C05": {"r4set1_2": "same"},
-    "C07": {"r2set2_3": "same", "r4set2_2": "history buffer moved behind properties into a collaborator object (_ValueHistory)"},
-    "C09": {"r4set2_2": "same", "r4set1_4": "solver_state / restore generated from class-level field declarations (_info_fields) with setattr / getattr over a tuple attribute",
-            "r4set2_3": "same idea (_info_attributes)"},
-    "C10": {"r4set1_4": "same", "r4set2_3": "same"},
-    "C13": {"r4set5_2": "pu / pz tabulation moved into module functions of a new module: the triaged call sites (and the recorded finding D5) are keyed by class and method"},
+    "C08": {"r4set4_2": "same"},
+    "C07": {"r2set2_3": "same"},
     "C20": {"r4set3_1": "verbosity tables replaced by one IntEnum (`_Verbosity(v).name`, `_Verbosity.__members__.get(name)`): no literal table to read"},
 }
 
